@@ -664,3 +664,7 @@ PROPS["C07"] = PROPS["C07"] + _G_TWO
 PROPS["C17"] = PROPS["C17"] + [_G_TWO[1]]
 PROPS["C08"] = PROPS["C08"] + [_G_TWO[1]]
 DESCR["C14"]["level"] += " Third obligation (both MIR profiles): an iteration ends on the failing side of a 16-bit range check (u16::try_from / checked_add) only when accumulator + 4 + value size + padding really exceeds 65535, i.e. every message that fits is accepted; a reachability witness for that failing side is required."
+
+# C06's client-level half takes the deadline queue by its contract ("check pops exactly the entries that are due"): the kernel
+# queries that decide that contract on the real queue belong to C06 as well (a queue that reports entries early = early retransmission)
+PROPS["C06"] = PROPS["C06"] + [h for h in PROPS["C11"] if h.name.split("::")[-1] in ("c11_check_n1", "c11_check_n2", "c11_next_n1")]
